@@ -66,6 +66,11 @@ SITES = {
     "column_where": lambda Q, N: Q.from_(T()).select("a").where(T().field(N) == 1),
     "column_group_order": lambda Q, N: Q.from_(T()).select(FN.Count("*")).groupby(T().field(N)).orderby(T().field(N)),
     "column_set": lambda Q, N: Q.update(T()).set(T().field(N), 1),
+    # columns named by a string handed to the builder call itself
+    "column_group_order_str": lambda Q, N: Q.from_(T()).select(FN.Count("*")).groupby(N).orderby(N) if N != "*" else None,
+    "column_order_str_multi": lambda Q, N: Q.from_(T()).select("a").orderby("b", N, "c") if N != "*" else None,
+    "column_set_str": lambda Q, N: Q.update(T()).set(N, 1),
+    "column_on_field": lambda Q, N: Q.from_(T()).join(U()).on_field(N).select(T().a),
     "column_insert": lambda Q, N: Q.into(T()).columns(N, "b").insert(1, 2),
     "column_on_conflict": lambda Q, N: Q.into(T()).insert(1).on_conflict(N).do_update(N, 2),
     "column_using": lambda Q, N: Q.from_(T()).join(U()).using(N).select(T().a),
@@ -142,6 +147,10 @@ NAME_COUNT = {"table_factory": 1, "table_factory_second": 1, "table_factory_tupl
 REQUIRED_MORE = {"ddl_period_end": ["a9", "p9"], "ddl_period_end_col": ["a9", "p9"], "ddl_period_cols": ["b", "p"]}
 
 
+class _StrSub(str):
+    """a user's own string type (e.g. a validated identifier class, a StrEnum-like constant)"""
+
+
 def render(o, Q):
     # always with the dialect's own context (that DDL builders created through a dialect class pick it up by
     # themselves is C08's business)
@@ -198,6 +207,16 @@ def run_case(case):
                         "%s of a statement built through the %s query class differs from its rendering with that dialect's context" % (mode, d),
                         dialect=d, site=site, name=N, with_context=sql, got=alt)
             return res
+    # a name is a name whatever its Python class: the same text carried by a subclass of str gives the same statement
+    try:
+        sql_sub = render(SITES[site](Q, _StrSub(N)), Q)
+    except Exception as e:
+        sql_sub = "!" + type(e).__name__
+    res.transitions += 1
+    if sql_sub != sql:
+        res.violate("C07|%s|str-subclass-differs" % site, "the name given as an instance of a str subclass is treated differently from the same text as a plain str",
+                    dialect=d, site=site, name=N, plain=sql, subclass=sql_sub)
+        return res
     key = (d, site)
     if key not in _BEN:
         bsql = render(SITES[site](Q, BENIGN), Q)
